@@ -84,7 +84,8 @@ def run(ctx, rep):
     dec = symlang.dec_atom(ctx)
     enc = symlang.enc_atom_tokens(ctx)
     encf = ctx.api("encoder")
-    tokf = ctx.fn("selfies.encoder._atom_to_selfies")
+    from rules.shared import atom_token_printer
+    tokf = atom_token_printer(ctx)
     # ---- L1 atoms
     rep.ob("L1", dec["ambiguity"] is None, None, None, loc="selfies/grammar_rules.py", construct="decoder atom pattern, element group %d" % dec["elem_group"],
            how="group assignment is unambiguous", witness=dec["ambiguity"], key="atom/unambiguous", nontrivial=True)
@@ -120,9 +121,24 @@ def run(ctx, rep):
         kind = lits[1]
         if len(args) != 2:
             raise AnalysisError("unexpected token template %r" % (tmpl,))
-        if not (isinstance(args[0], ast.Call) and isinstance(args[1], ast.Call) and unparse(args[1].func) == "len"):
+        from rules.shared import resolve_local
+        args = [resolve_local(owner, a_) for a_ in args]
+        if not (isinstance(args[1], ast.Call) and unparse(args[1].func) == "len"):
+            raise AnalysisError("%s token is not built from (prefix, len(index symbols))" % kind)
+        if isinstance(args[0], ast.Call) and not (kind == "Ring" and len(args[0].args) == 2 and not args[0].keywords):
+            pre, g = prefix_language(ctx, owner, args[0])
+        elif kind == "Ring":
+            # the prefix of a ring token: a function of the two directed bonds, or a local of the formatting function
+            from rules.shared import ring_prefix_paths
+            rp = ring_prefix_paths(ctx, owner, node, args[0])
+            pre = None
+            for st_, v_ in rp["paths"]:
+                d_ = rp["h"].sl.lang(v_, st_)
+                pre = d_ if pre is None else pre.union(d_)
+            if pre is None:
+                raise AnalysisError("ring prefix has no analysed path")
+        else:
             raise AnalysisError("%s token is not built from (prefix function, len(index symbols))" % kind)
-        pre, g = prefix_language(ctx, owner, args[0])
         suffix = ("set", frozenset("123"))          # documented limit: 1..3 index symbols
         tail = lits[2] if len(lits) > 2 else ""
         lang = RL.cat(("lit", lits[0]), pre, ("lit", lits[1]), suffix, ("lit", tail))
@@ -163,7 +179,7 @@ def run(ctx, rep):
 def check_rereadable(ctx, rep, dec):
     """every atom spelling the decoder's writer can print is accepted by smiles_to_atom"""
     eng, h, fr = dec["eng"], dec["hooks"], dec["frame"]
-    NC = ctx.fn("selfies.grammar_rules._process_atom_selfies_no_cache")
+    NC = symlang.atom_parser(ctx)
     atoms = []
     frame = Frame(NC, 0)
     for st, v in fr.returns:
